@@ -69,24 +69,49 @@ def the_lambda(e, kind, s=None, **known):
     return list(hits[0][1]["L"]) if hits else None
 
 
-def chord(e, Pt, Qt, Rt):
-    """exists L (the chip's): qy - py = L(qx - px), px + qx + rx = L^2, -ry - py = L(rx - px)"""
+def chord(e, Pt, Qt, Rt, guards=None):
+    """exists L (the chip's): qy - py = L(qx - px), px + qx + rx = L^2, -ry - py = L(rx - px).
+    `guards` (list) receives the enabling conditions of the three located gate groups."""
     L = the_lambda(e, "slope", s=1, px=Pt[0], py=Pt[1], qx=Qt[0], qy=Qt[1])
     if L is None:
         return "false"
+    if guards is not None:
+        guards += [ffecc.guard_of(e, "slope", s=1, L=L, px=Pt[0], py=Pt[1], qx=Qt[0], qy=Qt[1]),
+                   ffecc.guard_of(e, "lambda_squared", L=L, x1=Pt[0], x2=Qt[0], x3=Rt[0]),
+                   ffecc.guard_of(e, "slope", s=-1, L=L, px=Pt[0], py=Pt[1], qx=Rt[0], qy=Rt[1])]
     return AND(ffecc.identity(e, "slope", dict(L=L, px=Pt[0], py=Pt[1], qx=Qt[0], qy=Qt[1]), 1),
                ffecc.identity(e, "lambda_squared", dict(L=L, x1=Pt[0], x2=Qt[0], x3=Rt[0])),
                ffecc.identity(e, "slope", dict(L=L, px=Pt[0], py=Pt[1], qx=Rt[0], qy=Rt[1]), -1))
 
 
-def tangent(e, Pt, Rt):
+def tangent(e, Pt, Rt, guards=None):
     """exists L (the chip's): 3 px^2 + a = 2 py L, 2 px + rx = L^2, -ry - py = L(rx - px)"""
     L = the_lambda(e, "tangent", px=Pt[0], py=Pt[1])
     if L is None:
         return "false"
+    if guards is not None:
+        guards += [ffecc.guard_of(e, "tangent", L=L, px=Pt[0], py=Pt[1]),
+                   ffecc.guard_of(e, "lambda_squared", L=L, x1=Pt[0], x2=Pt[0], x3=Rt[0]),
+                   ffecc.guard_of(e, "slope", s=-1, L=L, px=Pt[0], py=Pt[1], qx=Rt[0], qy=Rt[1])]
     return AND(ffecc.identity(e, "tangent", dict(L=L, px=Pt[0], py=Pt[1])),
                ffecc.identity(e, "lambda_squared", dict(L=L, x1=Pt[0], x2=Pt[0], x3=Rt[0])),
                ffecc.identity(e, "slope", dict(L=L, px=Pt[0], py=Pt[1], qx=Rt[0], qy=Rt[1]), -1))
+
+
+def cut(e, parts, pre=()):
+    """the specification is the conjunction of `parts` [(label, Bool)]; each part (and before them the
+    auxiliary facts `pre`) the solver proves from the hypotheses is asserted as a lemma, so the main query
+    of the operation only has to combine them (ffecc.prove_cuts)."""
+    ffecc.prove_cuts(e, [x for x in list(pre) + list(parts) if x[1] is not None], timeout=CUT_TIMEOUT[0])
+    return AND(*[f for _, f in parts])
+
+
+CUT_TIMEOUT = [60]
+
+
+def enabled(gs):
+    gs = [g for g in gs if g and g != "true"]
+    return AND(*sorted(set(gs))) if gs else None
 
 
 def same_coords(e, A, B):
@@ -114,8 +139,11 @@ def S_from_coords(e, I, O):
 def S_double(e, I, O):
     Pt, = pts(e, I)
     Rt, = pts(e, O)
-    return AND(isbit(Rt[2]), eq(Rt[2], Pt[2]), wf(e, Rt[0]), wf(e, Rt[1]),
-               IMP(eq(Pt[2], 0), tangent(e, Pt, Rt)))
+    gs = []
+    body = tangent(e, Pt, Rt, gs)
+    return cut(e, [("flags+wf", AND(isbit(Rt[2]), eq(Rt[2], Pt[2]), wf(e, Rt[0]), wf(e, Rt[1]))),
+                   ("tangent-law", IMP(eq(Pt[2], 0), body))],
+               pre=[("gates-enabled", IMP(eq(Pt[2], 0), enabled(gs)) if enabled(gs) else None)])
 
 
 def S_add(e, I, O):
@@ -124,12 +152,20 @@ def S_add(e, I, O):
     m = M(e)
     opposite = AND(eq(res(e, Pt[0]), res(e, Qt[0])), eq(e.addmod(res(e, Pt[1]), res(e, Qt[1]), m), 0))
     none = AND(eq(Pt[2], 0), eq(Qt[2], 0), eq(Rt[2], 0))
-    return AND(isbit(Rt[2]), wf(e, Rt[0]), wf(e, Rt[1]),
-               IMP(eq(Pt[2], 1), AND(eq(Rt[2], Qt[2]), same_coords(e, Rt, Qt))),
-               IMP(eq(Qt[2], 1), AND(eq(Rt[2], Pt[2]), same_coords(e, Rt, Pt))),
-               IMP(AND(eq(Pt[2], 0), eq(Qt[2], 0)), eq(Rt[2], b2i(opposite))),
-               IMP(AND(none, same_coords(e, Pt, Qt)), tangent(e, Pt, Rt)),
-               IMP(AND(none, ne(res(e, Pt[0]), res(e, Qt[0]))), chord(e, Pt, Qt, Rt)))
+    dbl_case = AND(none, same_coords(e, Pt, Qt))
+    add_case = AND(none, ne(res(e, Pt[0]), res(e, Qt[0])))
+    g1, g2 = [], []
+    dbl = tangent(e, Pt, Rt, g1)
+    add = chord(e, Pt, Qt, Rt, g2)
+    pre = [("double-gates-enabled", IMP(dbl_case, enabled(g1)) if enabled(g1) else None),
+           ("chord-gates-enabled", IMP(add_case, enabled(g2)) if enabled(g2) else None)]
+    parts = [("flags+wf", AND(isbit(Rt[2]), wf(e, Rt[0]), wf(e, Rt[1]))),
+             ("p-identity", IMP(eq(Pt[2], 1), AND(eq(Rt[2], Qt[2]), same_coords(e, Rt, Qt)))),
+             ("q-identity", IMP(eq(Qt[2], 1), AND(eq(Rt[2], Pt[2]), same_coords(e, Rt, Pt)))),
+             ("opposite", IMP(AND(eq(Pt[2], 0), eq(Qt[2], 0)), eq(Rt[2], b2i(opposite)))),
+             ("tangent-law", IMP(dbl_case, dbl)),
+             ("chord-law", IMP(add_case, add))]
+    return cut(e, parts, pre)
 
 
 def S_negate(e, I, O):
@@ -149,7 +185,8 @@ def S_select(e, I, O):
 
 def S_is_equal(e, I, O):
     Pt, Qt = pts(e, I)
-    return AND(isbit(O[0]), eq(O[0], b2i(same_point(e, Pt, Qt))))
+    sp = same_point(e, Pt, Qt)
+    return cut(e, [("bit", isbit(O[0])), ("only-if", IMP(eq(O[0], 1), sp)), ("if", IMP(sp, eq(O[0], 1)))])
 
 
 def S_assert_equal(e, I, O):
@@ -235,4 +272,6 @@ def check(run):
     ]
     run.bounds.append(f"fecc tier={t}: {len(ents)} (curve, operation) shapes of the foreign ECC chip; curves {sorted(set(e_['params']['curve'] for e_ in ents))} emulated over the BLS12-381 scalar field; k=11")
     run.translator_validation.append("fecc: every extracted system is validated on the honest run (exact arithmetic vs MockProver::verify); the role search of ffecc is validated by the vacuity twin (honest assignment satisfies encoding + hypotheses + specification)")
+    for en in ents:
+        ffecc.ALT[(en["op"], en["params"]["curve"])] = en["alt"]
     cengine.run_family(run, "fecc", ents, timeout=90 if t == "quick" else 600, only=getattr(run, "only", None), workers=6)
